@@ -18,6 +18,7 @@
  *   idref:<leafmod>:<base>[+<base>...]@<ident>,<ident>,... identityref; <base> = <mod>.<name>; <ident> = <mod>.<name>[<<base>[+<base>...]]
  *                                                          is one identity of the module set with the identities it is derived from;
  *                                                          the leaf lives in module <leafmod> (which may own identities of the set)
+ *   instid:<schema-ser>:<yang-hex>[,...]                   instance-identifier (require-instance false) over the modules given; see instid_load
  *
  * ops
  *   store <ty> <hints> <hex>          plugin->store(JSON format, hints)      -> ok <canon-hex> <lyb-hex> | err <Kind>
@@ -85,6 +86,8 @@ kind_of_msg(const char *m)
         if (HAS("identity not derived from")) return "NotDerived";
         return "Other";
     }
+    if (PFX("Invalid instance-identifier")) return HAS("\" value - syntax error") ? "Syntax" : (HAS("\" value - semantic error") ? "Semantic" : "Other");
+    if (PFX("Internal error")) return "Internal";
     if (PFX("Invalid non-")) return "Hint";
     if (HAS("empty value.") || PFX("Invalid empty decimal64")) return "Empty";
     if (HAS("min/max bounds")) return "Bounds";
@@ -479,6 +482,73 @@ refresh_types(void)
     }
 }
 
+/* ---- instance-identifier: descriptor `instid:<schema-ser>:<yang-hex>[,<yang-hex>...]`.  The modules are loaded as given (the first one has
+ * `container c { leaf-list l; leaf s }` of type instance-identifier besides the data nodes the values point to); <schema-ser> is the serialisation
+ * of lean/LyModel/Path/Drv.lean (the one harness/api_path.c computes) and must equal what is computed here from the lysc_node trees of the loaded
+ * modules, in the order given - the model works on <schema-ser> alone. */
+static char
+ii_kind(const struct lysc_node *sn)
+{
+    switch (sn->nodetype) {
+    case LYS_LIST: return (sn->flags & LYS_KEYLESS) ? 'k' : ((sn->flags & LYS_CONFIG_W) ? 'L' : 'l');
+    case LYS_LEAFLIST: return (sn->flags & LYS_CONFIG_W) ? 'F' : 'f';
+    case LYS_LEAF: return (sn->flags & LYS_KEY) ? 'K' : 'e';
+    case LYS_ANYDATA: case LYS_ANYXML: return 'e';
+    default: return 'i';
+    }
+}
+
+static void
+ii_hex(char **buf, size_t *len, const char *t)
+{
+    if (!*t) sb_add(buf, len, "-");
+    for (; *t; t++) sb_add(buf, len, "%02x", (unsigned char)*t);
+}
+
+static void
+ii_ser(char **buf, size_t *len, const struct lysc_node *parent, const struct lysc_module *mod)
+{
+    const struct lysc_node *it = NULL;
+
+    while ((it = lys_getnext(it, parent, mod, 0))) {
+        sb_add(buf, len, "("); ii_hex(buf, len, it->module->name); sb_add(buf, len, ","); ii_hex(buf, len, it->name);
+        sb_add(buf, len, ",%c,", ii_kind(it));
+        if (!(it->nodetype & (LYS_LEAF | LYS_LEAFLIST | LYS_ANYDATA | LYS_ANYXML))) ii_ser(buf, len, it, NULL);
+        sb_add(buf, len, ")");
+    }
+}
+
+static struct lys_module *
+instid_load(const char *desc)
+{
+    const char *ser = desc + 7, *c2 = strchr(ser, ':'), *p;
+    struct lys_module *first = NULL, *loaded[8]; int n = 0, i;
+    char *buf = NULL; size_t len = 0; const struct lysc_node *c;
+
+    if (!c2) return NULL;
+    for (p = c2 + 1; *p && n < 8; ) {
+        const char *e = strchr(p, ','); size_t hl = e ? (size_t)(e - p) : strlen(p);
+        char *hex = strndup(p, hl), *y = vp_unhex(hex, NULL); struct lys_module *m = NULL;
+        free(hex);
+        if (!y || lys_parse_mem(ctx, y, LYS_IN_YANG, &m)) { free(y); return NULL; }
+        free(y);
+        loaded[n++] = m;
+        p = e ? e + 1 : p + hl;
+    }
+    if (!n) return NULL;
+    first = loaded[0];
+    for (i = 0; i < n; i++) ii_ser(&buf, &len, NULL, loaded[i]->compiled);
+    if (!buf || strlen(buf) != (size_t)(c2 - ser) || strncmp(buf, ser, c2 - ser)) {
+        fprintf(stderr, "instid: schema serialisation differs: %s\n", buf ? buf : "-");
+        free(buf);
+        return NULL;
+    }
+    free(buf);
+    c = lys_find_child(NULL, first, "c", 0, 0, 0);
+    if (!c || !lys_find_child(c, first, "l", 0, LYS_LEAFLIST, 0) || !lys_find_child(c, first, "s", 0, LYS_LEAF, 0)) return NULL;
+    return first;
+}
+
 static struct tyent *
 get_type(const char *desc)
 {
@@ -492,6 +562,10 @@ get_type(const char *desc)
     memset(t, 0, sizeof *t);
     memset(&rc, 0, sizeof rc);
     t->desc = strdup(desc);
+    if (!strncmp(desc, "instid:", 7)) {       /* instance-identifier over a schema of its own: modules given in the descriptor */
+        if ((t->mod = instid_load(desc))) { t->yangtype = strdup("type instance-identifier { require-instance false; }"); t->preamble = strdup(""); }
+        yt = NULL;
+    } else
     yt = render_type(desc, &rc);
     if (yt) {
         char name[80], *pre = NULL; size_t pl = 0;
@@ -540,7 +614,7 @@ store_text(struct tyent *t, const char *s, size_t n, uint32_t hints, struct lyd_
     rc = t->type->plugin->store(ctx, t->type, n ? s : "", n, 0, LY_VALUE_JSON, NULL, hints, t->l, val, NULL, &err);
     if (rc == LY_EINCOMPLETE) rc = LY_SUCCESS;
     if (rc) {
-        *kind = kind_of_msg(err ? err->msg : NULL);
+        *kind = (!err && rc == LY_EINT) ? "Internal" : kind_of_msg(err ? err->msg : NULL);
         ly_err_free(err);
     }
     return rc;
@@ -747,7 +821,7 @@ main(void)
             rc = t->type->plugin->store(ctx, t->type, s, n, 0, LY_VALUE_LYB, NULL, LYD_HINT_DATA, t->l, &back, NULL, &err);
             if (rc == LY_EINCOMPLETE) rc = LY_SUCCESS;
             if (rc) {
-                vp_reply(id, "err %s", kind_of_msg(err ? err->msg : NULL));
+                vp_reply(id, "err %s", (!err && rc == LY_EINT) ? "Internal" : kind_of_msg(err ? err->msg : NULL));
                 ly_err_free(err);
             } else {
                 const char *cb = canon_of(&back);
